@@ -59,6 +59,21 @@ struct State {
     skip_fsync: bool,
 }
 
+/// Optional callback invoked by the calling thread right BEFORE a mutating call on a watched file is
+/// performed (kind, file name): a scheduler can park the thread there.  It runs without the shim lock.
+static SYSCALL_GATE: Mutex<Option<fn(&'static str, &str)>> = Mutex::new(None);
+
+pub fn set_syscall_gate(f: Option<fn(&'static str, &str)>) {
+    *SYSCALL_GATE.lock().unwrap_or_else(|e| e.into_inner()) = f;
+}
+
+fn call_gate(kind: &'static str, file: &str) {
+    let f = *SYSCALL_GATE.lock().unwrap_or_else(|e| e.into_inner());
+    if let Some(f) = f {
+        f(kind, file);
+    }
+}
+
 static STATE: Mutex<Option<State>> = Mutex::new(None);
 static CV: Condvar = Condvar::new();
 
@@ -241,6 +256,7 @@ unsafe fn do_open(real: OpenFn, path: *const c_char, flags: c_int, mode: mode_t)
         "open_other"
     };
     if kind != "open_ro" {
+        call_gate(kind, &file);
         if let Gate::Fail(e) = gate() {
             record(kind, file, flags, 0, vec![], -1, e, true);
             set_errno(e);
@@ -295,6 +311,7 @@ pub unsafe extern "C" fn write(fd: c_int, buf: *const c_void, n: size_t) -> ssiz
     };
     let keep = with(|s| s.keep_data);
     let data = if keep { std::slice::from_raw_parts(buf as *const u8, n).to_vec() } else { vec![] };
+    call_gate("write", &file);
     if let Gate::Fail(e) = gate() {
         record("write", file, 0, n as u64, data, -1, e, true);
         set_errno(e);
